@@ -74,13 +74,14 @@ func c01BasePairs() []c11Job {
 		c.Curves, s.Curves = []int{29, 23}, []int{23, 29}
 	})
 	// ServerHello message hook: the server must commit what its FINAL ServerHello says
-	hook := func(name string, f func(c, s *c11Cfg, o *c11Opt)) {
+	hookr := func(name string, resume bool, f func(c, s *c11Cfg, o *c11Opt)) {
 		var c, s c11Cfg
 		c.CID, s.CID = -1, -1
 		var o c11Opt
 		f(&c, &s, &o)
-		jobs = append(jobs, c11Job{gen: "base:" + name, c: c, s: s, opt: o})
+		jobs = append(jobs, c11Job{gen: "base:" + name, c: c, s: s, resume: resume, opt: o})
 	}
+	hook := func(name string, f func(c, s *c11Cfg, o *c11Opt)) { hookr(name, false, f) }
 	hook("hook-appends-alpn", func(c, s *c11Cfg, o *c11Opt) {
 		s.Key = 1
 		c.ALPN = []int{1, 2}
@@ -95,6 +96,20 @@ func c01BasePairs() []c11Job {
 	hook("hook-swaps-cipher-suite", func(_, s *c11Cfg, o *c11Opt) {
 		s.Key = 2
 		o.Steer.SHSuite = 0xc02f
+	})
+	// the hook renames the session: both sides name it alike and the next connection resumes; on a resumption refused
+	hook("hook-rewrites-session-id", func(c, s *c11Cfg, o *c11Opt) {
+		full(c, s)
+		s.Key = 1
+		c.Store, s.Store = true, true
+		o.Steer.SHSessionID = true
+	})
+	hookr("hook-rewrites-session-id-resumed", true, func(c, s *c11Cfg, o *c11Opt) {
+		s.Key = 1
+		c.Store, s.Store = true, true
+		o.Steer.SHSessionID = true
+		c0, s0 := *c, *s
+		o.SeedC, o.SeedS = &c0, &s0
 	})
 	add("custom-cipher-suite", false, func(c, s *c11Cfg) {
 		full(c, s)
